@@ -15,7 +15,8 @@ Property theorems only, about the definitions of `Model/MaskBudget.lean` (the on
 * Random: `L + (N − L)·prob = N/R` (`random_prob_formula`); the statement "in expectation over seeds"
   then *assumes* that numpy's `uniform` is uniform on [0, 1) — not a theorem about numpy.
 * Equispaced: algebra of the adjusted acceleration, grid size, positions in range and strictly
-  increasing, and the budget bound (see the section below for what is proved and what is enumerated).
+  increasing, count decomposition, and **`equispaced_budget : |count − N/R| ≤ 2`** for every N, L,
+  `R ≥ 2`, offset (full strength; the bound is attained).
 -/
 namespace DirectVerif.C07
 open DirectVerif DirectVerif.MaskBudget
@@ -290,23 +291,48 @@ theorem equispaced_count (N L : Int) (R : ℚ) (off : Int) (hL0 : 0 ≤ L) (hLN 
     equiCount N L R off = L.toNat + ((equiPositions N (adjAccel N R L) off).filter fun p => !inAcs N L p).length :=
   equi_count_decomp N L _ off hL0 hLN ha hoff
 
+/-- **budget of an equispaced frame, full strength** (the property's "within two columns"): for every
+width, ACS size, acceleration `R ≥ 2` (so the adjusted acceleration is ≥ 2), feasible pair `L·R < N`
+and every offset the generator can draw, `|count − N/R| ≤ 2`; the value 2 is attained
+(e.g. N = 60, R = 3, L = 4, offset 3: count 18).
+
+Lower side: with `A` grid points below the ACS block, `J` below its end, and `m` in total, the three
+slacks `s₁ = x_A − (pad − ½)`, `s₂ = (pad + L − ½) − x_{J−1}`, `s₃ = x_m − (N − 1)` are ≥ 0 and
+`(A + m − J + 1)·a = N − L − (offset + 1) + s₁ + s₂ + s₃`; when `offset + 1 > a` (the offset bound
+`round(a)` rounded up) the integer `d = m − J + 1 − A` would satisfy `0 < d·a < a` because the block
+is centred (`N − L = 2·pad − ε`, `ε ∈ {0, 1}`) — impossible. -/
+theorem equispaced_budget (N L : Int) (R : ℚ) (off : Int) (hL0 : 0 ≤ L) (hR : 2 ≤ R)
+    (hfeas : (L : ℚ) * R < N) (hoff : 0 ≤ off) (hoffb : off < offsetBound (adjAccel N R L)) :
+    |(equiCount N L R off : ℚ) - (N : ℚ) / R| ≤ 2 := by
+  have hLq : (0 : ℚ) ≤ (L : ℚ) := by exact_mod_cast hL0
+  have hR0 : (0 : ℚ) < R := by linarith
+  have hage := adjAccel_ge (N : ℚ) R L hLq (by linarith) hfeas
+  have ha2 : 2 ≤ adjAccel N R L := by linarith
+  have hLNq : (L : ℚ) < N := by nlinarith
+  have hLN : L ≤ N := by
+    have : (L : ℤ) < N := by exact_mod_cast hLNq
+    omega
+  have halg := equispaced_algebra (N : ℚ) R L (ne_of_gt hR0) (ne_of_gt hLNq) (ne_of_lt hfeas)
+  obtain ⟨_, hup⟩ := equi_count_bounds N L (adjAccel N R L) off hL0 hLN (by linarith) hoff
+  have hlo := equi_count_lower N L (adjAccel N R L) off hL0 hLN ha2 hoff hoffb
+  unfold equiCount countTrue at *
+  rw [abs_le]
+  constructor <;> linarith
+
+/-- the bound 2 is attained -/
+example : (equiCount 60 4 3 3 : ℚ) - (60 : ℚ) / 3 = -2 := by
+  have : equiCount 60 4 3 3 = 18 := by decide +kernel
+  rw [this]; norm_num
+
 /-
-Full statement (the property's "within two columns"), the goal:
-
-  theorem equispaced_budget … : |(equiCount N L R off : ℚ) − N / R| ≤ 2
-
-What is proved below for **all** N, L, R, offset in the feasible range (`equispaced_budget_partial`):
-  N/R − 2 − 1/(2·a) ≤ count < N/R + 2     (a = adjusted acceleration ≥ R),
-i.e. the upper side in full and the lower side up to the slack `1/(2a) ≤ 1/(2R) ≤ 1/4`.  The slack
-comes from three worst cases that would have to coincide (offset = round(a) − 1 with `a` rounded up,
-`(N − 1 − offset)/a` an exact integer, and both ends of the ACS block hit by half-integer grid points
-rounded inwards); closing it needs a parity argument on half-even rounding that is not done.
-The exact bound 2 on the quantifier's domain (N = 32…400, R ∈ {2,…,12, 2.5, 5.5}, four centre
-fractions, every offset) is established by exhaustive enumeration of this model *and* of the
-implementation in the check (reported as enumeration, not proof).
+For accelerations `1 < R < 2` (outside the property's range 2…12) the adjusted acceleration may be
+below 2 and the centring argument above needs `a ≥ 2`; what holds there is `equispaced_budget_partial`
+(upper side in full, lower side up to the slack `1/(2a)`).  The exhaustive enumeration of the model
+and of the implementation over N = 32…400, R ∈ {2,…,12, 2.5, 5.5}, four centre fractions and every
+offset is kept in the check as supporting evidence (worst observed deviation: exactly 2).
 -/
 
-/-- **budget of an equispaced frame** (what holds for every size, acceleration and offset) -/
+/-- budget of an equispaced frame for every acceleration `R > 1` (weaker lower side) -/
 theorem equispaced_budget_partial (N L : Int) (R : ℚ) (off : Int) (hL0 : 0 ≤ L) (hR : 1 < R)
     (hfeas : (L : ℚ) * R < N) (hoff : 0 ≤ off) (hoffb : off < offsetBound (adjAccel N R L)) :
     (N : ℚ) / R - 2 - 1 / (2 * adjAccel N R L) ≤ (equiCount N L R off : ℚ) ∧
